@@ -86,6 +86,16 @@ class SQLiteStore(CallTraceStore):
         create_call_trace_table(conn)
         return cls(conn)
 
+    def _discard_failed_transaction(self) -> None:
+        """Roll back what an earlier, failed operation left open.
+
+        When the rollback of a failed batch insert itself fails (e.g. because
+        it is interrupted too), the connection stays inside that transaction
+        and the next commit would make part of the batch permanent.
+        """
+        if self.conn.in_transaction:
+            self.conn.rollback()
+
     def add(self, traces: Iterable[CallTrace]) -> None:
         values = []
         for row in serialize_traces(traces):
@@ -99,6 +109,7 @@ class SQLiteStore(CallTraceStore):
                     row.yield_type,
                 )
             )
+        self._discard_failed_transaction()
         with self.conn:
             self.conn.executemany(
                 "INSERT INTO {table} VALUES (?, ?, ?, ?, ?, ?)".format(
@@ -111,12 +122,14 @@ class SQLiteStore(CallTraceStore):
         self, module: str, qualname_prefix: Optional[str] = None, limit: int = 2000
     ) -> List[CallTraceThunk]:
         sql_query, values = make_query(self.table, module, qualname_prefix, limit)
+        self._discard_failed_transaction()
         with self.conn:
             cur = self.conn.cursor()
             cur.execute(sql_query, values)
             return [CallTraceRow(*row) for row in cur.fetchall()]
 
     def list_modules(self) -> List[str]:
+        self._discard_failed_transaction()
         with self.conn:
             cur = self.conn.cursor()
             cur.execute(
